@@ -349,7 +349,8 @@ impl World {
         }
         // text level: a cumulative summary built on a readable, non-placeholder base carries that base's cumulative
         // section forward at the head of its own; a bootstrap summary starts from the topics of the whole history
-        if auto {
+        // (not judged on a summary that reached the character cap: the carried section itself may be cut)
+        if auto && md.chars().count() < MAX_SUMMARY_CHARS {
             let base_md = v["basis"]["base_summary_artifact_id"].as_str().and_then(|b| self.arts.iter().find(|a| a.0 == b)).map(|a| a.2.clone());
             let own = cumulative_section(&md).unwrap_or_default();
             match (note, base_md) {
